@@ -193,3 +193,35 @@ Proof.
   left. split; [exact E|]. split; [|exact Hh]. specialize (PP E). destruct (rspec_va false v W B) as [EV _]. rewrite (EV tail) in PP. exact PP.
 Qed.
 Print Assumptions C14_source_va_read_any_schedule.
+
+(* the same one level up: sbdf_cs_read on the encoding of a well-formed column slice WITHOUT properties (plain or run-length
+   values), followed by anything, under EVERY allocation schedule: a negative status with the out-cell untouched and every
+   block the call allocated released again by its own sbdf_cs_destroy - or OK with the stream exactly behind the slice. *)
+From Sbdf Require Import ImpFactsCsRead Slice SliceFacts PrimFacts.
+Local Open Scope Z_scope.
+Theorem C14_source_cs_read_any_schedule : forall rf rp fo po k m h c tail, wf_cs c -> csprops c = [] -> venc (csvals c) <> SBDF_BITARRAYENCODINGTYPEID ->
+  Forall byte (enc_cs false c ++ tail) ->
+  exists f0, forall f, (f0 <= f)%nat -> exists st fin,
+    callC prog_env f prog_sbdf_cs_read [VPtr rf fo; VPtr rp po] m k (enc_cs false c ++ tail) h = OReturn (VInt st) fin /\
+    ((st = SBDF_OK /\ Imp.lookup strm_var (vars fin) = Some (VBytes tail) /\ Imp.lookup "*out" (vars fin) = Some (VCell (List.length h) 0)) \/
+     (st < 0 /\ Imp.lookup "*out" (vars fin) = Some VUndef /\ exists j, Imp.lookup cells_var (vars fin) = Some (VHeap (h ++ nones j)))).
+Proof.
+  intros rf rp fo po k m h c tail (Wv & Bv & _ & _) Hp Hne Hb.
+  assert (ESX : enc_cs false c ++ tail = [223; 91; SBDF_COLUMNSLICE_SECTIONID] ++ (enc_va false (csvals c) ++ enc32 false 0 ++ tail)).
+  { unfold enc_cs. rewrite Hp. cbn [map List.concat zlen List.length Z.of_nat]. rewrite app_nil_r, <- !app_assoc. reflexivity. }
+  rewrite ESX in *.
+  destruct (rspec_sec_expect SBDF_COLUMNSLICE_SECTIONID) as [E0 _].
+  destruct (rspec_va false (csvals c) Wv Bv) as [EV _].
+  destruct (rspec_int32 false 0 ltac:(unfold i32_range; lia)) as [E32 _].
+  assert (NB : forall s1, sec_expect SBDF_COLUMNSLICE_SECTIONID ([223; 91; SBDF_COLUMNSLICE_SECTIONID] ++ enc_va false (csvals c) ++ enc32 false 0 ++ tail) = Ok (tt, s1) -> forall t s2, s1 <> 3 :: t :: s2).
+  { intros s1 E. rewrite E0 in E. assert (Y : s1 = enc_va false (csvals c) ++ enc32 false 0 ++ tail) by congruence. subst s1. intros t s2 X. unfold enc_va in X. cbn [app] in X. injection X as X _. destruct Wv; cbn [venc] in *; try discriminate X. apply Hne. reflexivity. }
+  assert (CNT : forall s1 va s2 v s3, sec_expect SBDF_COLUMNSLICE_SECTIONID ([223; 91; SBDF_COLUMNSLICE_SECTIONID] ++ enc_va false (csvals c) ++ enc32 false 0 ++ tail) = Ok (tt, s1) ->
+                 Va.va_read false None s1 = Ok (va, s2) -> read_int32 false s2 = Ok (v, s3) -> v <= 0).
+  { intros s1 va s2 v s3 E A R. rewrite E0 in E. assert (Y : s1 = enc_va false (csvals c) ++ enc32 false 0 ++ tail) by congruence. subst s1. rewrite (EV (enc32 false 0 ++ tail)) in A. assert (Y : s2 = enc32 false 0 ++ tail) by congruence. subst s2. rewrite (E32 tail) in R. assert (v = 0) by congruence. lia. }
+  destruct (cs_read_source rf rp fo po k _ m h Hb NB CNT) as (f0 & F). exists f0. intros f Hf.
+  destruct (F f Hf) as (st & fin & C & _ & Out). exists st, fin. split; [exact C|].
+  destruct Out as [(E & Ho & (s1 & va & s2 & s3 & A1 & A2 & A3 & A4) & _)|(Hn & Ho & Hj)]; [|right; split; [exact Hn|split; [exact Ho|exact Hj]]].
+  left. split; [exact E|]. split; [|exact Ho].
+  rewrite E0 in A1. assert (Y : s1 = enc_va false (csvals c) ++ enc32 false 0 ++ tail) by congruence. subst s1. rewrite (EV (enc32 false 0 ++ tail)) in A2. assert (Y : s2 = enc32 false 0 ++ tail) by congruence. subst s2. rewrite (E32 tail) in A3. assert (Y : s3 = tail) by congruence. subst s3. exact A4.
+Qed.
+Print Assumptions C14_source_cs_read_any_schedule.
